@@ -102,6 +102,20 @@ def inject_all(base):
         dup.pad = None if hasattr(dup, 'pad') and depth > 0 else getattr(dup, 'pad', None)
         lst2.append(dup)
         out.append(Faulted('dup-field' if depth == 0 else 'dup-field-inline', p, f.name, 'field %s.%s' % (pk.name, f.name)))
+    # ---- duplicate field whose SECOND declaration is a match field (same name as an earlier plain field of that packet)
+    for idx, (pk, lst, f, depth) in enumerate(all_fields(base)):
+        if f.kind != 'match' or depth != 0:
+            continue
+        first = next((g for g in lst if g.kind in ('num', 'dyn', 'fix') and g.name != f.key), None)
+        if first is None:
+            continue
+        p = clone()
+        pk2, lst2, f2, _ = all_fields(p)[idx]
+        dup = copy.deepcopy(f2)
+        dup.name = first.name
+        dup._mark = True
+        lst2.append(dup)
+        out.append(Faulted('dup-field', p, first.name, 'field %s.%s declared again as a match field' % (pk.name, first.name)))
     # ---- match faults
     for idx, (pk, lst, f, depth) in enumerate(all_fields(base)):
         if f.kind != 'match':
